@@ -20,7 +20,7 @@ package db
 //@   ensures result1 == nil ==> result0 != nil
 //@   ensures plainErr(result1)
 
-//@ func NewTx
+//@ func NewTx (ctx, db)
 //@   props C07 C04 C14
 //@   requires db != nil
 //@   modifies lastTx
@@ -55,7 +55,7 @@ package db
 
 
 // ---- classification of a storage error (assumed, A5): the driver's extended result code of a primary-key conflict
-//@ func SQLiteErr
+//@ func SQLiteErr (err)
 //@   trusted
 //@   modifies nothing
 //@   ensures result0 != nil
@@ -63,7 +63,7 @@ package db
 
 // ---- how every store opens its database (C04, C07, C16): the assumed transaction and cascade semantics (A5) rest on
 // these connection parameters being applied to every pooled connection, i.e. being part of the DSN
-//@ func NewSQLiteDB
+//@ func NewSQLiteDB (dbPath)
 //@   props C04 C07 C16
 //@   trusted
 //@   consttext "file:%s?_txlock=exclusive&_foreign_keys=on&_journal_mode=WAL"
@@ -89,19 +89,19 @@ package db
 //@   modifies sqlRollbacks, lastSQLOK
 //@   ensures sqlRollbacks == old(sqlRollbacks) + 1 && lastSQLOK == (result == nil)
 
-//@ func (s *Tx) AddRollbackCallback
+//@ func (s *Tx) AddRollbackCallback (s, cb)
 //@   props C07
 //@   requires s != nil
 //@   modifies s.rollbackCallbacks
 //@   ensures[registered-last] len(s.rollbackCallbacks) == old(len(s.rollbackCallbacks)) + 1 && len(s.commitCallbacks) == old(len(s.commitCallbacks))
 
-//@ func (s *Tx) AddCommitCallback
+//@ func (s *Tx) AddCommitCallback (s, cb)
 //@   props C07
 //@   requires s != nil
 //@   modifies s.commitCallbacks
 //@   ensures[registered-last] len(s.commitCallbacks) == old(len(s.commitCallbacks)) + 1 && len(s.rollbackCallbacks) == old(len(s.rollbackCallbacks))
 
-//@ func (s *Tx) Rollback
+//@ func (s *Tx) Rollback (s)
 //@   props C07
 //@   requires s != nil && s.SQLTxer != nil
 //@   modifies cbRuns, sqlRollbacks, lastSQLOK
@@ -111,7 +111,7 @@ package db
 //@   ensures[failed-rollback-runs-nothing] result != nil ==> cbRuns == old(cbRuns)
 //@   loop 0 invariant 0 <= rangeindex + 1 && rangeindex + 1 <= len(s.rollbackCallbacks) && cbRuns == old(cbRuns) + rangeindex + 1 && sqlRollbacks == old(sqlRollbacks) + 1 && lastSQLOK
 
-//@ func (s *Tx) Commit
+//@ func (s *Tx) Commit (s)
 //@   props C07
 //@   requires s != nil && s.SQLTxer != nil
 //@   modifies cbRuns, sqlCommits, lastSQLOK
@@ -123,7 +123,7 @@ package db
 
 // the one place where "no rows" becomes the repository's "not found" for the look-ups that use it (C09 C11 C12 C15: the
 // callers read "not found" as "absent", any other failure must stay a failure)
-//@ func ReturnErrNotFound
+//@ func ReturnErrNotFound (err)
 //@   props C09 C11 C12 C15
 //@   modifies nothing
 //@   ensures[no-rows-becomes-not-found] isErr(err, sql.ErrNoRows) ==> result == ErrNotFound
